@@ -235,7 +235,7 @@ def orbit_monitor(ctx, specs):
                       lambda: {**wit(), "t_cross": tc})
             resid = np.array([yc[int(i)] - t for i, t in zip(cfg.residual_indices, cfg.target)])
             ctx.stat("half_period_residual/tol", np.abs(resid).max() / tol)
-            ctx.check(np.abs(resid).max() <= 10 * tol + 1e-11, "O:constraint residual at the half period below tolerance (reference flow)",
+            ctx.check(np.abs(resid).max() <= 10 * tol + 1e-10, "O:constraint residual at the half period below tolerance (reference flow)",
                       lambda: {**wit(), "residual": resid, "indices": cfg.residual_indices})
         ctrl = set(int(i) for i in cfg.control_indices)
         fixed = [i for i in range(6) if i not in ctrl]
